@@ -142,6 +142,8 @@ func (c *Conn) NetConn() net.Conn {
 
 // PeerCertificates 对端证书列表
 func (c *Conn) PeerCertificates() []*x509.Certificate {
+	c.handshakeMutex.Lock()
+	defer c.handshakeMutex.Unlock()
 	return c.peerCertificates
 }
 
